@@ -216,10 +216,10 @@ theorem E_setToSend_snoc {p : Bool} {g0 : G3} {s : Sess} {m : OutMsg} (h : E p g
 def noResetLogon (m : OutMsg) : Bool := !(m.kind == "A" && m.f.get? 141 == some "Y")
 
 /-- prepMessageForSend outside the Logon-reset branch: the numbered message can be appended to the queue -/
-theorem E_prep (p : Bool) (g0 : G3) (s : Sess) (m : OutMsg) (hn : noResetLogon m = true) (h : E p g0 s) :
-    E p g0 (prep s m).2 ∧ (∀ m', (prep s m).1 = some m' →
-      QSeq (g3Of p g0 (prep s m).2).lastFirst ((prep s m).2.toSend ++ [m']) (prep s m).2.store.sender ∧
-      (p = true → firstTime m' = true → triple m' ∈ (g3Of p g0 (prep s m).2).savedE)) := by
+theorem E_prepCore (p : Bool) (g0 : G3) (s : Sess) (m : OutMsg) (hn : noResetLogon m = true) (h : E p g0 s) :
+    E p g0 (prepCore s m).2 ∧ (∀ m', (prepCore s m).1 = some m' →
+      QSeq (g3Of p g0 (prepCore s m).2).lastFirst ((prepCore s m).2.toSend ++ [m']) (prepCore s m).2.store.sender ∧
+      (p = true → firstTime m' = true → triple m' ∈ (g3Of p g0 (prepCore s m).2).savedE)) := by
   have hn' : (m.kind == "A" && m.f.get? 141 == some "Y") = false := by
     unfold noResetLogon at hn
     cases hb : (m.kind == "A" && m.f.get? 141 == some "Y") with
@@ -239,7 +239,7 @@ theorem E_prep (p : Bool) (g0 : G3) (s : Sess) (m : OutMsg) (hn : noResetLogon m
     · have := e hp
       have hseq : m0.seq = s.store.sender := by rw [hm0]
       simpa [triple, hseq] using this
-  unfold prep
+  unfold prepCore
   simp only []
   split
   · rw [if_neg (by simpa using hn')]
@@ -250,6 +250,16 @@ theorem E_prep (p : Bool) (g0 : G3) (s : Sess) (m : OutMsg) (hn : noResetLogon m
     · exact ⟨h, fun m' hm' => by cases hm'⟩
     · obtain ⟨a, b⟩ := key _ rfl
       exact ⟨a, fun m' hm' => by simp only [Option.some.injEq] at hm'; subst hm'; exact b⟩
+
+theorem noResetLogon_stamp (s : Sess) (m : OutMsg) : noResetLogon (stamp s m) = noResetLogon m := by simp [noResetLogon]
+theorem noResetLogon_asNew (m : OutMsg) : noResetLogon m.asNew = noResetLogon m := rfl
+theorem noResetLogon_re (o : OutMsg) (m : InMsg) (h : noResetLogon o = true) : noResetLogon (o.inReplyTo m) = true := h
+
+theorem E_prep (p : Bool) (g0 : G3) (s : Sess) (m : OutMsg) (hn : noResetLogon m = true) (h : E p g0 s) :
+    E p g0 (prep s m).2 ∧ (∀ m', (prep s m).1 = some m' →
+      QSeq (g3Of p g0 (prep s m).2).lastFirst ((prep s m).2.toSend ++ [m']) (prep s m).2.store.sender ∧
+      (p = true → firstTime m' = true → triple m' ∈ (g3Of p g0 (prep s m).2).savedE)) :=
+  E_prepCore p g0 s (stamp s m) (by rw [noResetLogon_stamp]; exact hn) h
 
 theorem pres_queueForSend (p : Bool) (g0 : G3) (s : Sess) (m : OutMsg) (hn : noResetLogon m = true) :
     Pres p g0 s (queueForSend s m) := by
@@ -267,7 +277,7 @@ theorem pres_sendInReplyTo (p : Bool) (g0 : G3) (s : Sess) (m : OutMsg) (hn : no
   intro h
   unfold sendInReplyTo
   split
-  · exact pres_queueForSend p g0 s m hn h
+  · exact pres_queueForSend p g0 s _ (by rw [noResetLogon_asNew]; exact hn) h
   · have hp := E_prep p g0 s m hn h
     generalize prep s m = r at hp
     obtain ⟨o, s'⟩ := r
@@ -318,10 +328,10 @@ theorem E0_persistOut (p : Bool) (g0 : G3) (s : Sess) (m : OutMsg) (h : E0 p g0 
 
 /-- prepMessageForSend, any message: the numbered message lies strictly between the last first-time write and the
     store's next number, and has been saved in the current epoch -/
-theorem E0_prep (p : Bool) (g0 : G3) (s : Sess) (m : OutMsg) (h : E0 p g0 s) :
-    E0 p g0 (prep s m).2 ∧ (∀ m', (prep s m).1 = some m' →
-      (g3Of p g0 (prep s m).2).lastFirst < m'.seq ∧ m'.seq < (prep s m).2.store.sender ∧
-      (p = true → triple m' ∈ (g3Of p g0 (prep s m).2).savedE)) := by
+theorem E0_prepCore (p : Bool) (g0 : G3) (s : Sess) (m : OutMsg) (h : E0 p g0 s) :
+    E0 p g0 (prepCore s m).2 ∧ (∀ m', (prepCore s m).1 = some m' →
+      (g3Of p g0 (prepCore s m).2).lastFirst < m'.seq ∧ m'.seq < (prepCore s m).2.store.sender ∧
+      (p = true → triple m' ∈ (g3Of p g0 (prepCore s m).2).savedE)) := by
   have key : ∀ (s1 : Sess), E0 p g0 s1 → ∀ (m0 : OutMsg), m0 = { m with seq := s1.store.sender } →
       E0 p g0 (s1.persistOut s1.store.sender m0) ∧
       ((g3Of p g0 (s1.persistOut s1.store.sender m0)).lastFirst < m0.seq ∧
@@ -333,7 +343,7 @@ theorem E0_prep (p : Bool) (g0 : G3) (s : Sess) (m : OutMsg) (h : E0 p g0 s) :
     refine ⟨a, by rw [hseq]; exact b, by rw [hseq, c]; omega, fun hp => ?_⟩
     have := d hp
     simpa [triple, hseq] using this
-  unfold prep
+  unfold prepCore
   simp only []
   split
   · split
@@ -346,6 +356,12 @@ theorem E0_prep (p : Bool) (g0 : G3) (s : Sess) (m : OutMsg) (h : E0 p g0 s) :
     · exact ⟨h, fun m' hm' => by cases hm'⟩
     · obtain ⟨a, b⟩ := key _ h _ rfl
       exact ⟨a, fun m' hm' => by simp only [Option.some.injEq] at hm'; subst hm'; exact b⟩
+
+theorem E0_prep (p : Bool) (g0 : G3) (s : Sess) (m : OutMsg) (h : E0 p g0 s) :
+    E0 p g0 (prep s m).2 ∧ (∀ m', (prep s m).1 = some m' →
+      (g3Of p g0 (prep s m).2).lastFirst < m'.seq ∧ m'.seq < (prep s m).2.store.sender ∧
+      (p = true → triple m' ∈ (g3Of p g0 (prep s m).2).savedE)) :=
+  E0_prepCore p g0 s (stamp s m) h
 
 theorem E_setToSend_single {p : Bool} {g0 : G3} {s : Sess} {m : OutMsg} (h : E0 p g0 s)
     (h1 : (g3Of p g0 s).lastFirst < m.seq) (h2 : m.seq < s.store.sender)
@@ -365,7 +381,7 @@ theorem pres_dropAndSend (p : Bool) (g0 : G3) (s : Sess) (m : OutMsg) : Pres p g
   unfold dropAndSend
   have hp := E0_prep p g0 s m h.toE0
   have hq : (prep s m).1 = none → (prep s m).2 = s := by
-    unfold prep
+    unfold prep prepCore
     simp only []
     split
     · intro hx; simp at hx
@@ -425,7 +441,7 @@ theorem pres_sendResendRequest (p : Bool) (g0 : G3) (s : Sess) (b e : Int) : Pre
 
 theorem pres_doReject (p : Bool) (g0 : G3) (s : Sess) (m : InMsg) (r : Nat) (t : Option Nat) (b : Bool) :
     Pres p g0 s (doReject s m r t b) :=
-  pres_sendInReplyTo p g0 s _ (noResetLogon_rejectMsg _ _ _ _ _)
+  pres_sendInReplyTo p g0 s _ (noResetLogon_re _ _ (noResetLogon_rejectMsg _ _ _ _ _))
 
 section peel
 variable {p : Bool} {g0 : G3} {s x : Sess}
@@ -439,6 +455,8 @@ theorem peel_dropAndReset (h : Pres p g0 s x) : Pres p g0 s (dropAndReset x) := 
 theorem peel_sendQueued (h : Pres p g0 s x) : Pres p g0 s (sendQueued x) := h.trans (pres_sendQueued p g0 x)
 theorem peel_sendLogonInReplyTo (r : Bool) (h : Pres p g0 s x) : Pres p g0 s (sendLogonInReplyTo x r) := h.trans (pres_sendLogonInReplyTo p g0 x r)
 theorem peel_sendResendRequest (b e : Int) (h : Pres p g0 s x) : Pres p g0 s (sendResendRequest x b e).1 := h.trans (pres_sendResendRequest p g0 x b e)
+theorem peel_sendLogonRe (r : Bool) (m : InMsg) (h : Pres p g0 s x) : Pres p g0 s (sendLogonRe x r m) := h.trans (pres_dropAndSend p g0 x _)
+theorem peel_setReplyLast (v : Option Int) (hp : Pres p g0 s x) : Pres p g0 s (x.setReplyLast v) := hp.trans ((C02.Ext.of_eq (s := x) rfl rfl rfl rfl).pres3 p g0)
 theorem peel_emit (o : Obs) (hn : neutral o = true) (h : Pres p g0 s x) : Pres p g0 s (x.emit o) := h.trans ((C02.Ext.emit x o hn).pres3 p g0)
 theorem peel_setToSend_nil (h : Pres p g0 s x) : Pres p g0 s (x.setToSend []) := fun hk => E_setToSend_nil (h hk)
 theorem peel_setTarget (n : Int) (h : Pres p g0 s x) : Pres p g0 s (x.setTarget n) := h.trans ((C02.Ext.of_eq (s := x) rfl rfl rfl rfl).pres3 p g0)
@@ -468,6 +486,9 @@ macro_rules | `(tactic| c3_step) => `(tactic| apply peel_dropAndReset)
 macro_rules | `(tactic| c3_step) => `(tactic| apply peel_sendQueued)
 macro_rules | `(tactic| c3_step) => `(tactic| apply peel_sendLogonInReplyTo)
 macro_rules | `(tactic| c3_step) => `(tactic| apply peel_sendResendRequest)
+macro_rules | `(tactic| c3_step) => `(tactic| apply peel_sendLogonRe)
+macro_rules | `(tactic| c3_step) => `(tactic| apply peel_setReplyLast)
+macro_rules | `(tactic| c3_step) => `(tactic| apply peel_sendInReplyTo _ (noResetLogon_re _ _ (noResetLogon_mkOut _ _ (by decide))))
 macro_rules | `(tactic| c3_step) => `(tactic| apply peel_emit _ (by simp [neutral]))
 macro_rules | `(tactic| c3_step) => `(tactic| apply peel_setToSend_nil)
 macro_rules | `(tactic| c3_step) => `(tactic| apply peel_setTarget)
@@ -568,7 +589,7 @@ theorem pres_resendLoop (p : Bool) (g0 : G3) (s : Sess) (a b : Int) (l : List (I
       · exact ih s a (n + 1)
       · try dsimp only
         split
-        · exact ((pres_enqueueAndSend p g0 s _ (firstTime_gapFill _ _)).trans
+        · exact ((pres_enqueueAndSend p g0 s _ (firstTime_gapFillR _ _ _)).trans
             (pres_enqueueAndSend p g0 _ _ (firstTime_resent m))).trans (ih _ _ _)
         · exact (pres_enqueueAndSend p g0 s _ (firstTime_resent m)).trans (ih _ _ _)
 
@@ -577,13 +598,13 @@ theorem pres_resendMessages (p : Bool) (g0 : G3) (s : Sess) (b e : Int) : Pres p
   split
   · exact Pres.refl p g0 s
   · split
-    · exact pres_enqueueAndSend p g0 s _ (firstTime_gapFill _ _)
+    · exact pres_enqueueAndSend p g0 s _ (firstTime_gapFillR _ _ _)
     · have hl := pres_resendLoop p g0 s b b (s.store.range b e)
       generalize resendLoop s b b (s.store.range b e) = r at hl
       obtain ⟨s', x, y⟩ := r
       try dsimp only at hl ⊢
       split
-      · exact hl.trans (pres_enqueueAndSend p g0 s' _ (firstTime_gapFill _ _))
+      · exact hl.trans (pres_enqueueAndSend p g0 s' _ (firstTime_gapFillR _ _ _))
       · exact hl
 
 theorem peel_resendMessages {p : Bool} {g0 : G3} {s x : Sess} (b e : Int) (h : Pres p g0 s x) :
@@ -645,7 +666,7 @@ theorem pres_inSessionFixMsgIn (p : Bool) (g0 : G3) (s : Sess) (m : InMsg) : Pre
     generalize handleLogon s m = r at hl
     obtain ⟨s', o⟩ := r
     cases o with
-    | some e => exact hl.trans (pres_initiateLogout p g0 s')
+    | some e => exact hl.trans (pres_sendInReplyTo p g0 s' ((mkOut "5" []).inReplyTo m) (noResetLogon_re _ _ (noResetLogon_mkOut _ _ (by decide))))
     | none => exact hl
   · split
     · exact pres_handleLogout p g0 s m
@@ -704,10 +725,10 @@ theorem E_resendFixMsgIn (p : Bool) (g0 : G3) (s : Sess) (stash : List (Int × I
     | exact E_sRR_eq (by assumption) h1
     | exact E_drain_eq (by assumption) h1
 
-theorem E_shutdownWithReason (p : Bool) (g0 : G3) (s : Sess) (incr : Bool) (h : E p g0 s) :
-    E p g0 (shutdownWithReason s incr).1 := by
+theorem E_shutdownWithReason (p : Bool) (g0 : G3) (s : Sess) (m : InMsg) (incr : Bool) (h : E p g0 s) :
+    E p g0 (shutdownWithReason s m incr).1 := by
   unfold shutdownWithReason
-  have : Pres p g0 s (if incr = true then incrTarget (dropAndSend s (mkOut "5" [])) else dropAndSend s (mkOut "5" [])) := by c3_peel
+  have : Pres p g0 s (if incr = true then incrTarget (dropAndSend s ((mkOut "5" []).inReplyTo m)) else dropAndSend s ((mkOut "5" []).inReplyTo m)) := by c3_peel
   exact this h
 
 theorem E_handleLogon_eq {p : Bool} {g0 : G3} {s : Sess} {m : InMsg} {r : Sess × Option LogonErr}
@@ -724,7 +745,7 @@ theorem E_logonFixMsgIn (p : Bool) (g0 : G3) (s : Sess) (m : InMsg) (h : E p g0 
       have hh := E_handleLogon_eq (by assumption : handleLogon s m = _) h
       first
         | exact hh
-        | exact E_shutdownWithReason p g0 _ _ hh
+        | exact E_shutdownWithReason p g0 _ _ _ hh
         | exact E_sRR_eq (by assumption) hh)
 
 theorem E_fixMsgInCore (p : Bool) (g0 : G3) (s : Sess) (m : InMsg) (h : E p g0 s) : E p g0 (fixMsgInCore s m).1 := by
@@ -840,6 +861,17 @@ theorem E_stopNext (p : Bool) (g0 : G3) (s : Sess) (h : E p g0 s) : E p g0 (stop
   all_goals (try dsimp only)
   all_goals first | exact h | exact (by c3_peel : Pres p g0 s _) h
 
+theorem peel_setLastChecked {p : Bool} {g0 : G3} {s x : Sess} (n : Int) (hp : Pres p g0 s x) : Pres p g0 s (x.setLastChecked n) :=
+  hp.trans ((C02.Ext.of_eq (s := x) rfl rfl rfl rfl).pres3 p g0)
+macro_rules | `(tactic| c3_step) => `(tactic| apply peel_setLastChecked)
+
+/-- CheckResetTime: the reset Logon goes through `dropAndSend`, the queue of the old epoch is dropped with it -/
+theorem pres_checkResetTime (p : Bool) (g0 : G3) (s : Sess) (now : Int) : Pres p g0 s (checkResetTime s now) := by
+  unfold checkResetTime
+  repeat' split
+  all_goals (try dsimp only)
+  all_goals c3_peel
+
 /-- events the per-epoch clauses are stated for: the application does not submit a Logon with ResetSeqNumFlag=Y -/
 def benign : Ev → Bool
   | .send m => noResetLogon m
@@ -890,6 +922,7 @@ theorem E_stepCore (p : Bool) (g0 : G3) (s : Sess) (e : Ev) (hb : benign e = tru
     · exact pres_sendQueued p g0 _ h1
     · exact E_setToSend_nil h1
   | sessionTime r sm => exact hC s r sm h
+  | resetTime now => exact pres_checkResetTime p g0 s now h
 
 /-! ### liveness of one flush -/
 
